@@ -567,13 +567,14 @@ class Runner:
                     scr = rng.choice(['m', 'm', 'm', 'p', 'p', 'r', 'x'])
                     allow, lim, secs = rng.choice([(1, 0, 0), (1, 0, 0), (0, 0, 0), (0, 2, 0), (0, 0, 10), (0, 0, 10 ** 12), (0, U32MAX, 0)])
                     if not (f['ids'] or f['authors'] or f['tags']) and rng.random() < 0.5:
-                        # the time allowance measured against the clock: windows that start a minute or two hours
-                        # ago and end in the past, now, in the near or far future, or never (margins of minutes, so
-                        # the seconds between generating and running the request do not matter)
-                        f['since'] = now - rng.choice([60, 100, 7200, 7200])
-                        f['until'] = rng.choice([None, U64MAX, now + 600, now + 600, now + 10 ** 6, now - 10, U64MAX - 1])
+                        # the time allowance measured against the clock: windows that start a minute or weeks ago and end in
+                        # the past, now, in the near or far future, or never. The request is generated now and runs later - up to
+                        # an hour later in the thorough tier - so every window is at least eight hours away from the
+                        # allowance it is judged against: the verdict does not depend on when the request runs
+                        f['since'] = now - rng.choice([60, 100, 10 ** 6, 2 * 10 ** 6])
+                        f['until'] = rng.choice([None, U64MAX, now + 600, now + 600, now + 10 ** 7, now - 10, U64MAX - 1])
                         f['limit'] = rng.choice([None, 1, 5, 1000])
-                        allow, lim, secs = 0, rng.choice([0, 2]), rng.choice([300, 300, 3000])
+                        allow, lim, secs = 0, rng.choice([0, 2]), rng.choice([30000, 30000, 300000])
                     fs.append((f, scr, allow, lim, secs, 'rand', None))
                 if len(fs) > 3 * self.nfilters + 40:
                     fs = rng.sample(fs, 3 * self.nfilters + 40)
